@@ -67,6 +67,10 @@ const (
 
 	sibKey  = 100000 // key of the well-behaved client's parked call
 	subChID = 1      // channel id the fake server hands to the client under attack
+
+	// tgtNoHandler: a second client under attack, created WITHOUT any WithClientHandler. Call
+	// frames from the (fake) server must be dropped by it, not crash it.
+	tgtNoHandler = "client-nohandler"
 )
 
 type msg struct {
@@ -75,7 +79,7 @@ type msg struct {
 }
 
 type input struct {
-	Target string `json:"target"` // "server" | "client": who is under attack
+	Target string `json:"target"` // "server" | "client" | "client-nohandler": who is under attack
 	Kind   string `json:"kind"`
 	Conn   string `json:"conn"`
 	Msgs   []msg  `json:"msgs"`
@@ -483,7 +487,7 @@ func enumerate(tier string) []input {
 		seen[k] = true
 		out = append(out, in)
 	}
-	for _, target := range []string{"server", "client"} {
+	for _, target := range []string{"server", "client", tgtNoHandler} {
 		n := namesFor(target)
 		for _, f := range productFrames(n) {
 			add(input{Target: target, Kind: "single", Conn: connUsable, Msgs: []msg{{mtText, f}}})
@@ -861,14 +865,17 @@ func modelEffects(in input, holdID string) effects {
 	return e
 }
 
-func (w *clientWorld) run(idx int, in input) (viol, harness string) {
+func (w *clientWorld) run(idx int, in input, withHandler bool) (viol, harness string) {
 	var api struct {
 		Sub  func(context.Context) (<-chan int, error)
 		Hold func(context.Context) (int, error)
 	}
 	ctx, cancel := context.WithCancel(context.Background())
 	defer cancel()
-	opts := append(wsOpts(), jsonrpc.WithClientHandler("R", &revAPI{}))
+	opts := wsOpts()
+	if withHandler {
+		opts = append(opts, jsonrpc.WithClientHandler("R", &revAPI{}))
+	}
 	closer, err := jsonrpc.NewMergeClient(ctx, w.url, "T", []interface{}{&api}, nil, opts...)
 	if err != nil {
 		return "", fmt.Sprintf("client cannot connect to the fake server: %v", err)
@@ -969,9 +976,13 @@ func (w *clientWorld) run(idx int, in input) (viol, harness string) {
 			return fmt.Sprintf("probe failed on the same connection: fake server cannot send message %d: %v", i, err), ""
 		}
 	}
-	// reverse probe: the client's handler must still answer on this connection
-	if err := probe(sc, fmt.Sprintf("probe-%d", idx), "R.Ping", 3000000+idx); err != nil {
-		return "probe failed on the same connection (reverse call to the client's handler): " + err.Error(), ""
+	// reverse probe: the client's handler must still answer on this connection. A client
+	// without a reverse handler drops calls, so there the subscription value and the in-flight
+	// call's response below are the probes on the same connection.
+	if withHandler {
+		if err := probe(sc, fmt.Sprintf("probe-%d", idx), "R.Ping", 3000000+idx); err != nil {
+			return "probe failed on the same connection (reverse call to the client's handler): " + err.Error(), ""
+		}
 	}
 	if !eff.mayComplete {
 		select {
@@ -1062,7 +1073,7 @@ func TestC10Child(t *testing.T) {
 				os.Exit(0)
 			}
 		}
-		if in.Target == "client" && cw == nil {
+		if in.Target != "server" && cw == nil {
 			cw = newClientWorld()
 		}
 		jw("B %d", i)
@@ -1070,7 +1081,7 @@ func TestC10Child(t *testing.T) {
 		if in.Target == "server" {
 			viol, harness = sw.run(i, in)
 		} else {
-			viol, harness = cw.run(i, in)
+			viol, harness = cw.run(i, in, in.Target != tgtNoHandler)
 		}
 		switch {
 		case harness != "":
@@ -1667,8 +1678,8 @@ func TestC10(t *testing.T) {
 	rule := "single frames: 6 methods (xrpc.cancel, xrpc.ch.val, xrpc.ch.close, response, unknown, valid call) x 94 params shapes (absent, null, [], [x], [x,y], {} " +
 		"with x,y over 9 JSON values) x 7 id shapes, 8 result x 8 error members x 7 ids for responses, meta/id/spelling extras, non-JSON and oversized messages, " +
 		"the same as binary messages, hand-built WebSocket-level frames (legal and protocol violations); each sent to a real server (with a well-behaved " +
-		"second client holding a subscription and a parked call) and from a fake server to a real client (holding a subscription, an in-flight call and a " +
-		"reverse handler); HTTP/HandleRequest bodies of L-1, L, L+1, 2L+1, L+64Ki bytes for L in {1,64,1000}"
+		"second client holding a subscription and a parked call), from a fake server to a real client (holding a subscription, an in-flight call and a " +
+		"reverse handler) and to a second real client created without any reverse handler (holding a subscription and an in-flight call); HTTP/HandleRequest bodies of L-1, L, L+1, 2L+1, L+64Ki bytes for L in {1,64,1000}"
 	if tier == "thorough" {
 		rule += "; all sequences of length <= 2 over a 40-frame alphabet; every truncation, single-byte deletion and substitution from 8 bytes at every offset of 6 seed frames"
 	}
